@@ -503,3 +503,40 @@ func TestPanicAndHorizon(t *testing.T) {
 		t.Fatalf("spinning forever must hit the horizon: %+v", r.Findings)
 	}
 }
+
+type pooled struct{ owner int }
+
+// A value handed back to a Pool while its putter still uses it must be observable by another
+// thread (use-after-Put), and a correct Put-after-last-use must stay silent.
+func TestPoolReuseAcrossThreads(t *testing.T) {
+	mk := func(name string, putEarly bool) *vrt.Scenario {
+		type env struct{ p sync.Pool }
+		use := func(id int) func(any) any {
+			return func(e any) any {
+				p := &e.(*env).p
+				o := p.Get().(*pooled)
+				o.owner = id
+				if putEarly {
+					p.Put(o) // bug: still read below
+					return o.owner
+				}
+				v := o.owner
+				p.Put(o)
+				return v
+			}
+		}
+		return &vrt.Scenario{Name: name, Setup: func() any { return &env{p: sync.Pool{New: func() any { return &pooled{} }}} },
+			Threads: []func(any) any{use(1), use(2)}}
+	}
+	r := vrt.Explore(mk("pool-ok", false), vrt.Options{Bound: 2})
+	if r.HarnessError != "" || len(r.Findings) != 0 {
+		t.Fatalf("false alarm on correct pool use: %v %+v", r.HarnessError, r.Findings)
+	}
+	if r.DistinctTraces < 2 {
+		t.Fatalf("pool operations of the two threads never interleaved: %d traces", r.DistinctTraces)
+	}
+	r = vrt.Explore(mk("pool-use-after-put", true), vrt.Options{Bound: 1})
+	if has(r, "differential") == nil {
+		t.Fatalf("use-after-Put not observed: %+v", r.Findings)
+	}
+}
